@@ -73,8 +73,12 @@ PROPS["C09"] = {
         {"pkg": ".", "dir": "s3db", "entry": "VerifH_C09_vacuum",
          "quick": {"params": "steps=3", "workers": 16, "timeout": 1200},
          "thorough": {"params": "steps=4", "workers": 16, "timeout": 6000}},
+        {"pkg": "kv", "dir": "kv", "entry": "VerifH_C09_kv_history",
+         "quick": {"params": "steps=5", "workers": 16, "timeout": 1200},
+         "thorough": {"params": "steps=6", "workers": 16, "timeout": 6000}},
+        {"pkg": ".", "dir": "s3db", "entry": "VerifH_C04_vacuum", "quick": {"workers": 16, "timeout": 900}},
     ],
-    "bounds": {"quick": "histories of 3 single-statement transactions over two keys from {insert k1, insert k2, delete k1, delete k2, update k1, continue-through-new-handle}, each committed as its own version; cutoff symbolic over the whole time range",
+    "bounds": {"quick": "kv level: 5 committed steps from {Set k1, Set k2, physical removal of k2, continue through a handle created later} with symbolic creation times and cutoff (histories that return to an earlier content in a kept, non-current version); crash index inside vacuum (C04's vacuum harness); histories of 3 single-statement transactions over two keys from {insert k1, insert k2, delete k1, delete k2, update k1, continue-through-new-handle}, each committed as its own version; cutoff symbolic over the whole time range",
                "thorough": "4 transactions"},
     "outside": "crash inside vacuum is covered by C04's model only for commit; histories longer than the bound",
     "assumptions": [TIME_RANGE],
@@ -83,9 +87,13 @@ PROPS["C10"] = {
     "harnesses": [
         {"pkg": ".", "dir": "s3db", "entry": "VerifH_C10_rowside", "quick": {"workers": 8, "timeout": 900}},
         {"pkg": ".", "dir": "s3db", "entry": "VerifH_C10_marker_wins", "quick": {"workers": 8, "timeout": 900}},
+        {"pkg": ".", "dir": "s3db", "entry": "VerifH_C10_reclaim", "reach": ["end", "retried"], "quick": {"workers": 16, "timeout": 900}},
+        {"pkg": "kv", "dir": "kv", "entry": "VerifH_C09_kv_history",
+         "quick": {"params": "steps=5", "workers": 16, "timeout": 1200},
+         "thorough": {"params": "steps=6", "workers": 16, "timeout": 6000}},
     ],
-    "bounds": "one entry in arbitrary state (deleted flag, modification time, delete offset, cutoff all symbolic over the time range) next to one live row; marker-wins: insert/delete/older-insert times symbolic",
-    "outside": "version-side reclamation beyond what C09's harness asserts (second vacuum changes nothing, retained versions readable)",
+    "bounds": "version side: kv-level histories of 5 committed steps with symbolic creation times and cutoff (superseded-before-cutoff gone, superseded-after kept, second run changes nothing); reclaim: 3 table shapes, one storage fault at a symbolic request of vacuum; row side: one entry in arbitrary state (deleted flag, modification time, delete offset, cutoff all symbolic over the time range) next to one live row; marker-wins: insert/delete/older-insert times symbolic",
+    "outside": "histories longer than the bounds",
     "assumptions": [TIME_RANGE],
 }
 
